@@ -32,9 +32,11 @@ def impl(case):
     if op == 'unique':
         return [int(x) for x in A._unique(np.array(case['l'], dtype=case['dtype']))]
     if op == 'index_of':
-        return [int(x) for x in A._index_of(np.array(case['arr'], dtype=np.int64), case['lookup'])]
+        dt = case.get('dtype', 'int64')
+        lookup = case['lookup'] if case.get('lkind', 'list') == 'list' else np.array(case['lookup'], dtype=dt)
+        return [int(x) for x in A._index_of(np.array(case['arr'], dtype=dt), lookup)]
     if op == 'flatten':
-        d = {i: np.array(v, dtype=np.int64) for i, v in enumerate(case['d'])}
+        d = {i: np.array(v, dtype=case.get('dtype', 'int64')) for i, v in enumerate(case['d'])}
         return [int(x) for x in A._flatten_per_cluster(d)]
     if op == 'gmean':
         adt = case.get('adtype', 'float64')
@@ -80,6 +82,12 @@ def judge(case, impl_res, ans):
     if 'err' in ans:
         return 'MACHINERY: driver error %s' % ans['err']
     m = ans['ok']['model']
+    if case['op'] == 'flatten' and not case['d']:
+        # the empty dictionary: the real helper raises ValueError (nothing to concatenate); the model's []
+        # is outside the theorem's domain (hypothesis d ≠ [])
+        if impl_res.get('raised') not in (None, 'ValueError') or impl_res.get('ok') not in (None, []):
+            return 'SPEC: _flatten_per_cluster({}) neither raises ValueError nor returns an empty array'
+        return None
     if 'raised' in impl_res:
         return 'SPEC: real code raised %s (%s) at %s on an in-domain input' % (
             impl_res['raised'], impl_res['msg'], impl_res['where'])
@@ -176,6 +184,7 @@ def gen(tier, rng):
     yield dict(p=PID, op='sic', sc=[], cl=[1], dtype='int64')
     yield dict(p=PID, op='sic', sc=[1, 2], cl=[], dtype='int64')
     yield dict(p=PID, op='unique', l=[], dtype='int64')
+    yield dict(p=PID, op='flatten', d=[])
     for lookup in itertools.permutations([0, 2, 3, 7, 11], 3):
         for arr in itertools.product(lookup, repeat=3):
             yield dict(p=PID, op='index_of', arr=list(arr), lookup=list(lookup))
@@ -184,7 +193,7 @@ def gen(tier, rng):
         yield dict(p=PID, op='index_of', arr=[], lookup=lookup)
     for d in itertools.product([[], [3], [5, 1], [1, 8, 3], [2, 2]], repeat=3):
         if any(d):
-            yield dict(p=PID, op='flatten', d=[list(x) for x in d])
+            yield dict(p=PID, op='flatten', d=[list(x) for x in d], dtype=dts[sum(map(len, d)) % 4])
     # unsigned vectors with negative entries are impossible; signed -1 ("unclustered") for _unique
     yield dict(p=PID, op='unique', l=[3, -1, 0, 3, -1], dtype='int64')
     # TemplateModel queries on generated datasets
@@ -221,4 +230,5 @@ def gen(tier, rng):
             yield dict(p=PID, op='gmean', sc=sc, arr=[rng.randrange(lo, hi) for _ in range(n)], dtype=dt, adtype=adt)
         else:
             lookup = rng.sample(range(0, max(R, 200)), rng.randrange(1, 30))
-            yield dict(p=PID, op='index_of', arr=[rng.pick(lookup) for _ in range(n)], lookup=lookup)
+            yield dict(p=PID, op='index_of', arr=[rng.pick(lookup) for _ in range(n)], lookup=lookup,
+                       dtype=rng.pick([d for d in dts if d != 'uint16' or max(lookup) < 60000]), lkind=rng.pick(['list', 'array']))
